@@ -17,8 +17,8 @@ CLAIMED = {
             "DESIGN.md 6 C11", "Rejections implemented as hard errors inside a function body (not enable_if) would not be visible to the detection idiom; element/pointer constness of array references and group/data mutators are not covered."),
     "C12": ("proof", "Contracts + law lemmas on random_access_iterator, forward_iterator, flat/nested group bases for dimension type pairs (3 quick, 16 thorough): entry i at data start + i*wire blockLength, begin()+size()==end(), it[n]==*(it+n), (it+n)-n==it, orderings, nested ++ moves by entry size, resize/clear touch only numInGroup.",
             "DESIGN.md 6 C12", "Iterator arithmetic proved for |n|, blockLength <= 2^20 (product must not overflow int64); n == difference_type minimum excluded for subtracting forms."),
-    "C13": ("proof", "One-step refinement of std::vector per dynamic_array_ref operation: structure clauses (length prefix, returned iterator, reporting, frame) unbounded with memmove/memset replaced by frame contracts; content clauses bounded (buffer <= 8 bytes, ghost index).",
-            "DESIGN.md 6 C13", "Content clauses are bounded stand-ins and are counted separately in the evidence; range inserts (forward/input iterators) only in the thorough tier."),
+    "C13": ("proof", "One-step refinement of std::vector per dynamic_array_ref operation, unbounded in buffer length, size, position and element index: structure clauses (length prefix, returned iterator, reporting, frame) and content clauses (element k of the new payload equals the vector model's element for a ghost index k). memmove/memset/strlen are ghost-index over-approximations of their ISO C meaning with asserted preconditions (no assumed libc contracts); resize(count[,value]) by a loop contract. push_back, pop_back, erase x2, insert x5 (value, count, forward range, initializer_list, input iterators), resize x3, assign x4, assign_string, assign_range, clear, observers.",
+            "DESIGN.md 6 C13", "Bounded and counted separately: insert(pos,first,last) for single-pass input iterators (range <= 2 elements, thorough tier), assign_string into a value_type other than char (string <= 3 chars). Multi-byte length prefixes: content clauses of the insert overloads and erase(first,last) only in the thorough tier (minutes of SAT time)."),
     "C14": ("proof", "static_array_ref<N> for N in {1,2,3,4,8}: strlen/strlen_r/assign_string/fill/assign/element access exact for all 256^N contents; loops unwind completely because N is a template constant (unwinding assertions on).", "DESIGN.md 6 C14",
             "N itself is sampled; memchr is a C stub from the ISO text (CBMC ships no model)."),
     "C16": ("proof", "required_base/optional_base for the 22 built-in types: null, has_value, value_or, in_range, all six comparisons against the documented rules incl. NaN; min/max/null against the SBE table.", "DESIGN.md 6 C16",
@@ -27,8 +27,8 @@ CLAIMED = {
             "DESIGN.md 6 C06", "Two genuine defects are listed as known findings (fields read beyond a short wire block; data length prefix read before validation); messages with groups are bounded (numInGroup <= 2) and counted as bounded; nested groups not covered."),
     "C17": ("translation_validation", GEN + "fill_message_header / fill_group_header of every corpus message and group: each identifying member holds the oracle's value at the oracle's offset and width, the frame is exactly those members' bytes, the result views the header.",
             "DESIGN.md 6 C17", "Header layouts are those of the corpus."),
-    "C18": ("translation_validation", GEN + "Every value-returning trait function of every corpus entity (schema, messages, groups, fields, data, types, enums and values, sets and choices, composites) equals the XML value (strings compared character by character).",
-            "DESIGN.md 6 C18", "Type-level traits (value_type, tag lists, predicates) are types, not functions: not decided."),
+    "C18": ("translation_validation", GEN + "Every value-returning trait function of every corpus entity (schema, messages, groups, fields, data, types, enums and values, sets and choices, composites) equals the XML value (strings compared character by character). Type-level traits: value_type / value_type_tag / dimension, entry, length, primitive and encoding types / traits_tag_t / the eleven tag-kind predicates / children tag lists in schema order (type_tags as a set) are decided as booleans computed by clang's std::is_same on the instantiated traits and checked bit by bit.",
+            "DESIGN.md 6 C18", "Type-level checks are decided by the C++ front end while lowering (the verifier only checks the resulting constants); expected representation types of inline (non-public) composite members are not derived."),
     "C19": ("proof", GEN + "visit_children of every corpus level (without nested groups) with a recording visitor that stops at a symbolic callback ordinal: kinds, schema ids, values/addresses in schema order, stop result, final cursor.",
             "DESIGN.md 6 C19", "Enum/set visiting and by-tag access are covered only where registered; entry loops of groups by the library loop contracts."),
     "C15": ("proof",
